@@ -557,6 +557,11 @@ def run_obligation(prop, ob_dict, known):
             return ctx
 
         main_pid = int(os.environ.get('VF_MAIN_PID', '0') or 0)
+        try:      # die with the fork server (which exits when the check's main process goes away)
+            import ctypes
+            ctypes.CDLL(None).prctl(1, 9)      # PR_SET_PDEATHSIG, SIGKILL
+        except Exception:
+            pass
 
         def on_path(r, is_exc):
             if main_pid:
